@@ -481,6 +481,14 @@ class Shared final : public vf::Family {
         for (auto& t : ts) {
           t.join();
         }
+        // last-but-one holder: only sf0 is left; a continuation that returns it (flattening) must copy, because sf0
+        // is read again afterwards (moving out is allowed only for the provably last owner)
+        if ((pre & 1) == 0) {
+          auto flat = yaclib::MakeFuture<void, TErr>().ThenInline([copy = sf0]() { return copy; });
+          R r = std::move(flat).Get();
+          Check(cx, r);
+          Check(cx, sf0.Get());
+        }
         sf0 = {};
         if (ek == 1) {
           que.Stop();
